@@ -34,7 +34,7 @@ def region_dist(r, x, y):
 def inside(r, x, y):
     if r[0] == 'rect':
         return r[2] <= x <= r[4] and r[3] <= y <= r[5]
-    return (x - r[2]) ** 2 + (y - r[3]) ** 2 <= r[4] ** 2
+    return r[4] >= 0 and (x - r[2]) ** 2 + (y - r[3]) ** 2 <= r[4] ** 2      # a disc of negative radius has no points
 
 
 class Gen(object):
@@ -136,7 +136,7 @@ class Gen(object):
             self.emit(rng.choice(['M204 S%d' % rng.randint(500, 3000), 'M204 P%d T%d' % (rng.randint(500, 2000), rng.randint(500, 2000)),
                                   'M205 X%d Y%d' % (rng.randint(5, 20), rng.randint(5, 20)), 'M205 X%d' % rng.randint(1, 9),
                                   'M117 Layer %d' % rng.randint(1, 99), 'M73 P%d' % rng.randint(0, 100), 'M73 P%d R%d' % (rng.randint(0, 100), rng.randint(0, 300)),
-                                  'G4 P%d' % rng.randint(1, 500), 'G4', 'M204 S0', 'M205 X0 Y0', 'M73 P0 R0', 'M73 P0', 'M106 S0', 'M205 X0', 'G4 P0', 'M204 S', 'M73 P5 R', 'M117 Hello World 5'] + list(self.extra_ext_cmds)))
+                                  'G4 P%d' % rng.randint(1, 500), 'G4', 'M204', 'M73', 'M205', 'M204 S0', 'M205 X0 Y0', 'M73 P0 R0', 'M73 P0', 'M106 S0', 'M205 X0', 'G4 P0', 'M204 S', 'M73 P5 R', 'M117 Hello World 5'] + list(self.extra_ext_cmds)))
         elif r < 0.16:
             self.emit(rng.choice(['M106 S%d' % rng.randint(0, 255), 'M107', 'M140 S60', 'T0', 'M82', 'M400', 'G4 S0', 'M105', 'G29.1']))
         elif r < 0.19 and o['at']:
@@ -318,6 +318,8 @@ class Gen(object):
         if rng.random() < 0.6:
             w, h = F(rng.randint(3, 14)), F(rng.randint(3, 14))
             return ('rect', '', cx - w + off, cy - h + off, cx + w + off, cy + h + off)
+        if rng.random() < 0.12:
+            return ('circ', '', cx + off, cy - off, -F(rng.randint(3, 13)) - off)     # negative radius: the empty disc
         return ('circ', '', cx + off, cy - off, F(rng.randint(3, 13)) + off)
 
     def tested_points(self, events):
